@@ -58,6 +58,15 @@ func (s *Server) collectionNameToFileName(name string) string {
 	return filepath.Join(globalConfig.DataFolder, name+".dat")
 }
 
+// validCollectionName reports whether name can be used as a file name inside
+// the data folder: a single, non-special path component.
+func validCollectionName(name string) bool {
+	if name == "" || name == "." || name == ".." {
+		return false
+	}
+	return !strings.ContainsAny(name, "/\\\x00")
+}
+
 func (s *Server) fileNameToCollectionName(fileName string) string {
 	// Extract the base filename from the full path
 	baseName := filepath.Base(fileName)
@@ -100,6 +109,10 @@ func (s *Server) handleCollections(w http.ResponseWriter, r *http.Request) {
 		}
 
 		name := opts.Name
+		if !validCollectionName(name) {
+			writeErrorResponse(w, "Invalid collection name", http.StatusBadRequest)
+			return
+		}
 		opts.Name = s.collectionNameToFileName(name)
 
 		s.mutex.Lock()
